@@ -356,10 +356,18 @@ def _apply_power_mapping(ufunc, in_unit, in_size, in_shape, input_kwarg_dict):
     # a repeated product which we implement as an exponent
     mul = 1
     power_map = POWER_MAPPING[ufunc]
-    if input_kwarg_dict.get("axis", None) is not None:
-        unit = in_unit ** (power_map(in_shape[input_kwarg_dict["axis"]]))
+    # ufunc.reduce reduces along axis 0 unless told otherwise; only
+    # axis=None reduces over all elements
+    axis = input_kwarg_dict.get("axis", 0)
+    if axis is None or not in_shape:
+        count = in_size
+    elif isinstance(axis, tuple):
+        count = 1
+        for ax in axis:
+            count *= in_shape[ax]
     else:
-        unit = in_unit ** (power_map(in_size))
+        count = in_shape[axis]
+    unit = in_unit ** (power_map(count))
     return mul, unit
 
 
